@@ -33,7 +33,7 @@ Definition uses_center (d : desc) : bool := match d with Dcrs | Dcds | Dcrd => t
 
 Section Sets.
   Variable pfwd pinv : R * R -> option (R * R).
-  Variable fac : cu -> R.
+  Variable fac : cu -> R * R.
   Variable geographic : bool.
   Variable crs_units : cu.
 
@@ -47,7 +47,7 @@ Section Sets.
   Definition unit_ok (u : utok) (c : cu) (s : R) : Prop :=
     extract_units u geographic = Ok c /\
     ((c = Cdeg /\ geographic = true /\ s = 1) \/
-     (c <> Cdeg /\ s = (if cu_eqb crs_units c then 1 else fac c) /\ s <> 0)).
+     (c <> Cdeg /\ s = (if cu_eqb crs_units c then 1 else fst (fac c) * snd (fac c)) /\ s <> 0)).
 
   Lemma kw_units attr units :
     match attr with Some u => u | None => match units with Some u => u | None => default_units crs_units end end
@@ -63,7 +63,8 @@ Section Sets.
     destruct Hc as [(-> & Hg & ->)|(Hd & -> & Hs)].
     - cbn [cu_eqb]. rewrite Hg. destruct Hn as [-> | ->]; cbn; repeat f_equal; field.
     - assert (cu_eqb c Cdeg = false) as -> by (destruct c; try reflexivity; congruence).
-      unfold convert_metered. destruct (cu_eqb crs_units c); destruct Hn as [-> | ->]; cbn; repeat f_equal; field; lra.
+      unfold convert_metered. destruct (cu_eqb crs_units c); destruct Hn as [-> | ->]; cbn; repeat f_equal; try (field; lra);
+        destruct (Rmult_neq_0_reg _ _ Hs) as [Hf1 Hf2]; field; auto.
   Qed.
 
   Lemma conv_center attr units c s x y center :
@@ -78,7 +79,9 @@ Section Sets.
     - assert (E : cu_eqb c Cdeg = false) by (destruct c; try reflexivity; congruence). rewrite E in *.
       unfold convert_metered. destruct (cu_eqb crs_units c); cbn [fst snd mul RO].
       + replace (x / 1, y / 1) with (x, y) by (f_equal; field). now rewrite Hr.
-      + replace (x / fac c * fac c, y / fac c * fac c) with (x, y) by (f_equal; field; lra). now rewrite Hr.
+      + destruct (Rmult_neq_0_reg _ _ Hs) as [Hf1 Hf2].
+        replace (x / (fst (fac c) * snd (fac c)) * fst (fac c) * snd (fac c), y / (fst (fac c) * snd (fac c)) * fst (fac c) * snd (fac c))
+          with (x, y) by (f_equal; field; auto). now rewrite Hr.
   Qed.
 
   Lemma conv_dist name attr units c s x y center :
@@ -93,14 +96,16 @@ Section Sets.
     - assert (cu_eqb c Cdeg = false) as -> by (destruct c; try reflexivity; congruence).
       unfold convert_metered. destruct (cu_eqb crs_units c); destruct Hn as [-> | ->]; cbn [bind is_dist fst snd absf mul RO].
       all: try (replace (x / 1) with x by field; replace (y / 1) with y by field; now rewrite !Rabs_pos_eq by lra).
-      all: replace (x / fac c * fac c) with x by (field; lra); replace (y / fac c * fac c) with y by (field; lra);
+      all: destruct (Rmult_neq_0_reg _ _ Hs) as [Hf1 Hf2];
+        replace (x / (fst (fac c) * snd (fac c)) * fst (fac c) * snd (fac c)) with x by (field; auto);
+        replace (y / (fst (fac c) * snd (fac c)) * fst (fac c) * snd (fac c)) with y by (field; auto);
         now rewrite !Rabs_pos_eq by lra.
   Qed.
 End Sets.
 
 Section SetsMain.
   Variable pfwd pinv : R * R -> option (R * R).
-  Variable fac : cu -> R.
+  Variable fac : cu -> R * R.
   Variable geographic : bool.
   Variable crs_units : cu.
   Local Notation create := (create_area_def RO pfwd pinv fac geographic crs_units).
